@@ -75,8 +75,19 @@ claim("C33",
  "One delivery step; convergence over many deliveries (any order, duplication, loss) follows by induction with C04 (chain stays a gap-free publisher prefix, and every delivery containing head+1 makes progress). The network scheduler, timers and multiple peers are outside.",
  "DESIGN.md §4 C33")
 
+
+claim("C12",
+ "Bounded symbolic check of spend construction in manual-hours mode, decomposed: (1) transaction.ChooseSpends (both strategies) on 1..3 offered balances with free coins, hours and block numbers returns a duplicate-free subset of the offered balances covering the requested coins and, after the burn, the requested hours, and reports ErrInsufficientBalance / ErrInsufficientHours only if all offered coins / hours do not cover the request; (2) transaction.Create around any selection that contract allows (1..2 offered outputs, 1 destination in the quick tier; 1..3 x 1..2 in the thorough tier): a returned transaction passes Transaction.VerifyUnsigned, spends only offered outputs each once, pays each destination exactly, balances coins, sends the remaining coins to the given or lexicographically first spending address and burns at least the required fee. The thorough tier also runs Create end to end with the real ChooseSpends.",
+ "ChooseSpends, fee.RequiredFee and UxOut.CoinHours are summarised by their contracts in the Create harness (each contract is checked separately: ChooseSpends here, the others in C31); SHA256 uninterpreted / output ids concrete and distinct. Assumed invariants of unspent outputs: coins > 0, sums fit in 64 bits, distinct non-null ids, not the genesis output. Outside: automatic-hours (share) mode with shopspring/decimal, DistributeCoinHoursProportional (math/big), wallet-level wiring.",
+ "DESIGN.md §4 C12 (H1 built; H2/H3 pending)")
+
+claim("C13",
+ "Bounded symbolic check of wallet.SignTransaction: transactions with 2 (thorough 2..3) inputs whose existing signatures are null or arbitrary, every sign-index list of length 0..inputs over values 0..inputs (out-of-range and duplicate values included), every assignment of the spent outputs to wallet entry 0, entry 1 or a foreign address, correct or corrupted inner hash, and all four wallet kinds / encrypted flag: the call succeeds exactly when the request is valid and the wallet can sign (not watch-only, not encrypted, inner hash correct, something left to sign, indexes valid, no requested input already signed, every needed key held); on success exactly the requested (or all unsigned) inputs carry sign(SHA256(inner||input), owner's key), every other signature, the inputs, outputs and inner hash are unchanged, and the argument transaction is never modified.",
+ "Signing is an uninterpreted function of (message hash, secret key) whose result is never the null signature; wallet entries with different addresses hold different keys (C17). Outside: real key derivation, Visor.WalletSignTransaction wiring, verification of the produced signatures by the real curve code (follows from A-SIG and the entry invariant).",
+ "DESIGN.md §4 C13")
+
 _pending = "check not built yet in this revision (work in progress; see DESIGN.md §4)"
-for p in ["C02","C05","C06","C07","C10","C12","C13","C14","C16","C17","C19","C20","C21","C25","C26","C27","C30","C33"]:
+for p in ["C02","C05","C06","C07","C10","C14","C16","C17","C19","C20","C21","C25","C26","C27","C30","C33"]:
     na(p, _pending)
 na("C08", "crash points inside boltdb's mmap/page commit and fsync ordering plus the goroutine/channel WalkChain pipeline cannot be encoded by an SSA->SMT executor (no I/O ordering or scheduling semantics)")
 na("C32", "race freedom and shutdown under all goroutine schedules: the encoder has no thread/channel semantics; the race detector is a dynamic technique outside this family")
